@@ -47,9 +47,15 @@ def set_engine(e):
 class SymEngine:
     symbolic = True
 
-    def __init__(self, query_timeout_ms=120000):
+    def __init__(self, query_timeout_ms=120000, logic=None):
         self.solver = z3.Solver()
         self.solver.set('timeout', query_timeout_ms)
+        self.query_timeout_ms = query_timeout_ms
+        self.logic = logic
+        self.model_solver = self.solver
+        self.pool = []          # models found so far (witnesses reused across paths)
+        self.pool_cap = 16
+        self.witness_hits = 0
         self.queries = 0
         self.qtime = 0.0
         self.paths = 0          # completed paths (property evaluated)
@@ -80,17 +86,73 @@ class SymEngine:
         self.inputs = {}        # name -> z3 const (declared inputs of this path)
         self.path_notes = {}
         self.path_cover = set()
+        self.live = list(self.pool)   # witnesses that satisfy the path condition so far
 
     # -- solver
     def check(self, *a):
         t = time.time()
-        r = str(self.solver.check(*a))
+        if self.logic:
+            # F-model harnesses: a fresh tactic-based solver per query (bit-blasting) is orders of
+            # magnitude faster on QF_FP than the incremental core used with push/pop
+            s = z3.SolverFor(self.logic)
+            s.set('timeout', self.query_timeout_ms)
+            s.add(self.pc)
+            s.add(list(a))
+            self.model_solver = s
+            r = str(s.check())
+        else:
+            self.model_solver = self.solver
+            r = str(self.solver.check(*a))
         self.qtime += time.time() - t
         self.queries += 1
         if r == 'unknown':
             self.unknown += 1
-            raise Inconclusive('solver answered unknown (%s)' % self.solver.reason_unknown())
+            raise Inconclusive('solver answered unknown (%s)' % self.model_solver.reason_unknown())
+        if r == 'sat':
+            try:
+                m = self.model_solver.model()
+                self.pool.append(m)
+                if len(self.pool) > self.pool_cap:
+                    del self.pool[0]
+                self.last_model = m
+                self._new_witness = m
+            except z3.Z3Exception:
+                pass
         return r
+
+    # -- witnesses: a model that satisfies the path condition proves a branch side feasible
+    #    without a solver call (only infeasibility needs the solver)
+    def _holds(self, m, e):
+        try:
+            return z3.is_true(m.eval(e, model_completion=True))
+        except z3.Z3Exception:
+            return False
+
+    def _add_constraint(self, c):
+        self.solver.add(c)
+        self.pc.append(c)
+        if self.live:
+            self.live = [m for m in self.live if self._holds(m, c)]
+
+    def _witness(self, e):
+        for m in self.live:
+            if self._holds(m, e):
+                self.witness_hits += 1
+                return m
+        return None
+
+    def _sat(self, e):
+        """Is path condition AND e satisfiable? Tries the known witnesses first."""
+        if self._witness(e) is not None:
+            return True
+        self._new_witness = None
+        r = self.check(e)
+        if r == 'sat' and self._new_witness is not None:
+            # the new model satisfies the current path condition: it is live
+            self.live.append(self._new_witness)
+            if len(self.live) > self.pool_cap:
+                del self.live[0]
+        return r == 'sat'
 
     def decide(self, e):
         key = e.get_id()
@@ -100,8 +162,8 @@ class SymEngine:
             b = self.trace[self.pos]
             self.pos += 1
         else:
-            if self.check(e) == 'sat':
-                if self.check(z3.Not(e)) == 'sat':
+            if self._sat(e):
+                if self._sat(z3.Not(e)):
                     self.pending.append(self.trace[:self.pos] + [False])
                 else:
                     self.infeasible_sides += 1
@@ -113,8 +175,7 @@ class SymEngine:
             self.pos += 1
             self.decisions += 1
         c = e if b else z3.Not(e)
-        self.solver.add(c)
-        self.pc.append(c)
+        self._add_constraint(c)
         self.cache[key] = b
         return b
 
@@ -128,9 +189,8 @@ class SymEngine:
             return
         if note:
             self.assumption_log.add(note)
-        self.solver.add(e)
-        self.pc.append(e)
-        if z3.is_false(e) or self.check() != 'sat':
+        self._add_constraint(e)
+        if z3.is_false(e) or not self._sat(z3.BoolVal(True)):
             raise Abort()
 
     def cover(self, name, cond=True):
@@ -139,7 +199,9 @@ class SymEngine:
         e = B(cond)
         if z3.is_false(e):
             return
-        if z3.is_true(e) or self.check(e) == 'sat':
+        if self.cover_goals[name] and name in self.path_cover:
+            return
+        if z3.is_true(e) or self._sat(e):
             self.cover_goals[name] = True
             self.path_cover.add(name)
 
@@ -175,8 +237,7 @@ class SymEngine:
             return 0
         v = self._decl('ch:' + label, z3.Int('ch:' + label))
         dom = z3.And(v >= 0, v < n)
-        self.solver.add(dom)
-        self.pc.append(dom)
+        self._add_constraint(dom)
         for k in range(n - 1):
             if self.decide(v == k):
                 return k
@@ -236,20 +297,27 @@ class SymEngine:
             self.nontrivial += 1
         if len(self.samples) < 3:
             self.samples.append(self._sample())
-        r = 'unsat' if z3.is_true(z3.simplify(prop)) else self.check(z3.Not(prop))
-        if r == 'unsat':
+        if z3.is_true(z3.simplify(prop)):
             self.discharged += 1
             return
-        m = self.solver.model()
+        m = self._witness(z3.Not(prop))
+        if m is None:
+            if self.check(z3.Not(prop)) == 'unsat':
+                self.discharged += 1
+                return
+            m = self.model_solver.model()
         m = self._readable_model(prop, m)
         failed = [n for n, c in named if not z3.is_true(m.eval(c, model_completion=True))]
         self.cex.append({'failed': failed, 'inputs': self.model_inputs(m), 'notes': dict(self.path_notes)})
 
     def _sample(self):
         try:
-            if self.solver.check() != z3.sat:
-                return {'note': 'no model'}
-            m = self.solver.model()
+            if self.live:
+                m = self.live[-1]
+            else:
+                if self.check() != 'sat':
+                    return {'note': 'no model'}
+                m = self.model_solver.model()
             d = self.model_inputs(m)
             return {'decisions': len(self.trace), 'cover': sorted(self.path_cover),
                     'input': {k: d[k] for k in list(d)[:24]}}
@@ -259,7 +327,7 @@ class SymEngine:
     def _readable_model(self, prop, m):
         """Try to find a model of the failing path whose reals are integers."""
         reals = [c for c in self.inputs.values() if z3.is_real(c) and not str(c).startswith('stub:')]
-        if not reals:
+        if not reals or self.logic:
             return m
         self.solver.push()
         try:
@@ -290,7 +358,7 @@ class SymEngine:
     def stats(self):
         return dict(paths=self.paths, aborted=self.aborted, decisions=self.decisions,
                     infeasible_sides=self.infeasible_sides, queries=self.queries,
-                    solver_s=round(self.qtime, 3), unknown=self.unknown,
+                    solver_s=round(self.qtime, 3), unknown=self.unknown, witness_hits=self.witness_hits,
                     obligations=self.obligations, discharged=self.discharged,
                     nontrivial=self.nontrivial)
 
@@ -527,7 +595,11 @@ class SymInt:
         if o is None or isinstance(o, str):
             return True
         return self._cmp(o, lambda a, b: a != b)
-    __hash__ = None
+
+    def __hash__(self):
+        # every symbolic int hashes alike: dict/set/lru_cache lookups then fall through to __eq__,
+        # which forks on the symbolic equality (sound: hash collisions are always legal)
+        return 0x5151
 
     def _ar(self, o, f, r=False):
         if isinstance(o, (SymFloat, float)):
@@ -587,9 +659,14 @@ def concretize_int(x):
         return v.as_long()
     tries = 0
     while True:
-        if ENG.check() != 'sat':
-            raise Abort()
-        k = ENG.solver.model().eval(x.e, model_completion=True).as_long()
+        if ENG.live:
+            m = ENG.live[-1]
+        else:
+            if ENG.check() != 'sat':
+                raise Abort()
+            m = ENG.model_solver.model()
+            ENG.live.append(m)
+        k = m.eval(x.e, model_completion=True).as_long()
         if ENG.decide(x.e == k):
             return k
         tries += 1
@@ -845,6 +922,10 @@ def ite(c, a, b):
         if a2 is not None and b2 is not None:
             cls = SymFPInt if isinstance(a, SymFPInt) and isinstance(b, SymFPInt) else SymFP
             return cls(z3.If(c.e, a2.e, b2.e))
+    if getattr(ENG, 'logic', None) == 'QF_FP' and not isinstance(a, SymFloat) and not isinstance(b, SymFloat) \
+            and isinstance(a, (int, float)) and isinstance(b, (int, float)) \
+            and (isinstance(a, float) or isinstance(b, float)):
+        return SymFP(z3.If(c.e, fpval(a), fpval(b)))
     if isinstance(a, (SymFloat, float)) or isinstance(b, (SymFloat, float)):
         a2, b2 = SymFloat.of(a), SymFloat.of(b)
         if a2 is not None and b2 is not None and not isinstance(a2, _Inf) and not isinstance(b2, _Inf):
